@@ -420,8 +420,9 @@ def logistic_closed(x, m, s):
 
 
 def regression_closed(y, m, s):
+    # documented form -(y-m)^2/(2 s^2) - log(s^2)/2 - log(2 pi)/2: defined for every s <> 0 (scale |s|)
     y, m, s = D(y), D(m), D(s)
-    return -((y - m) / s) ** 2 / 2 - s.ln() - (2 * PI).ln() / 2
+    return -((y - m) / s) ** 2 / 2 - (s * s).ln() / 2 - (2 * PI).ln() / 2
 
 
 def close(obs, exp, rel, absl=0.0):
@@ -632,6 +633,10 @@ def gen_case(rng, kind, nrows=3):
     elif kind in ('normalpdf', 'lognormalpdf', 'logisticcdf', 'loglikelihoodregression', 'likelihoodregression'):
         m = grid(rng, -3, 3, 4)
         s = grid(rng, 0.25, 4, 8)
+        if kind in ('loglikelihoodregression', 'likelihoodregression') and rng.random() < 0.45:
+            # sigma is an unbounded parameter and only sigma^2 enters the documented form: negative values
+            # (starting value, line search, final estimate) must give the normal log density with scale |sigma|
+            s = -s
         if kind == 'lognormalpdf':
             xs = [grid(rng, 0.125, 12, 8) for _ in range(nrows)]
         else:
@@ -898,6 +903,12 @@ def corpus_gens():
             g['expect'] = [Fraction(e) for e in c['expect']]
         if 'expect_vars' in c:
             g['expect_vars'] = [[Fraction(e) for e in row] for row in c['expect_vars']]
+        if c.get('closed') in ('loglikelihoodregression', 'likelihoodregression'):   # rows carry y; beta_values m, s
+            bvs = c['case']['beta_values']
+            m_, s_ = fr(float.fromhex(bvs['m'])), fr(float.fromhex(bvs['s']))
+            vals = [regression_closed(fr(float.fromhex(r['y'])), m_, s_) for r in c['case']['rows']]
+            g['expect'] = vals if c['closed'] == 'loglikelihoodregression' else [v.exp() for v in vals]
+            g['tol'], g['absl'] = REL_CONST, 1e-11
         if c.get('closed') == 'boxcox':      # rows carry x, beta_values carry l
             l = fr(float.fromhex(c['case']['beta_values']['l']))
             g['expect'] = [boxcox_closed(fr(float.fromhex(r['x'])), l) for r in c['case']['rows']]
@@ -1113,8 +1124,11 @@ def stream_corr(ctx):
                 break
             size = rng.randint(1, min(4, len(pool)))
             alts, pool = pool[:size], pool[size:]
-            nests.append([hx(grid(rng, 1, 5, 8)), alts])
-        mu = None if rng.random() < 0.6 else hx(rng.choice([Fraction(1), grid(rng, 0.5, 1, 8), Fraction(1, 2)]))
+            u = rng.random()
+            mu_m = grid(rng, 1, 5, 8) if u < 0.8 else (grid(rng, 0.25, 1, 8) if u < 0.9 else -grid(rng, 1, 5, 8))
+            nests.append([hx(mu_m), alts])
+        mu = None if rng.random() < 0.6 else hx(rng.choice([Fraction(1), grid(rng, 0.5, 1, 8), Fraction(1, 2),
+                                                            -grid(rng, 0.5, 1, 8), Fraction(-1)]))
         cases.append({'kind': 'nlcorr', 'choice_set': labels, 'nests': nests, 'mu': mu, 'as_beta': rng.random() < 0.4})
     res = run_impl(ctx, cases, chunk=20)
     how = 'NestsForNestedLogit(choice_set, nests).correlation(mu=mu)'
